@@ -125,6 +125,9 @@ func (c *Ctx) runModelCase(s *Sub, src, stdin string, opt model.Options, o judge
 	if err != nil {
 		s.Harness("%v:\n%s", err, src)
 	}
+	if c.stepOverride > 0 {
+		opt.MaxSteps = c.stepOverride
+	}
 	if stdin != "" {
 		opt.Stdin = strings.Split(strings.TrimSuffix(stdin, "\n"), "\n")
 	}
